@@ -57,6 +57,10 @@ def isExec : Ev → Bool
 def execs (es : List Ev) : List Ev := es.filter isExec
 
 @[simp] theorem execs_nil : execs [] = [] := rfl
+@[simp] theorem execs_body (r : Nat) (a : Args) (b : Bool) : execs [Ev.body r a b] = [] := rfl
+@[simp] theorem execs_prompt (r : Nat) : execs [Ev.prompt r] = [] := rfl
+@[simp] theorem execs_cons_body (r : Nat) (a : Args) (b : Bool) (es : List Ev) :
+    execs (Ev.body r a b :: es) = execs es := rfl
 @[simp] theorem execs_append (a b : List Ev) : execs (a ++ b) = execs a ++ execs b := by
   simp [execs]
 
@@ -167,15 +171,15 @@ theorem runBody_dry (cfg : Cfg) (env : Env) (ri : Nat) (r : Recipe) (given ps : 
 program, every command line, every fuel, every memo state and every behaviour of the children. -/
 theorem dry_run_executes_nothing (P : Prog) (cfg : Cfg) (env : Env) (h : cfg.dryRun = true) :
     ∀ fuel,
-      (∀ ri given ran k, execs (runRecipe P cfg env fuel ri given ran k).1 = []) ∧
-      (∀ ds ps ran k, execs (runDeps P cfg env fuel ds ps ran k).1 = []) := by
+      (∀ sub ri given ran k, execs (runRecipe P cfg env fuel sub ri given ran k).1 = []) ∧
+      (∀ sub ds ps ran k, execs (runDeps P cfg env fuel sub ds ps ran k).1 = []) := by
   intro fuel
   induction fuel with
   | zero =>
-    have hr : ∀ ri given ran k, execs (runRecipe P cfg env 0 ri given ran k).1 = [] := by
-      intro ri given ran k; simp [runRecipe]
+    have hr : ∀ sub ri given ran k, execs (runRecipe P cfg env 0 sub ri given ran k).1 = [] := by
+      intro sub ri given ran k; simp [runRecipe]
     refine ⟨hr, ?_⟩
-    intro ds
+    intro sub ds
     induction ds with
     | nil => intro ps ran k; simp [runDeps]
     | cons d ds ih =>
@@ -186,7 +190,7 @@ theorem dry_run_executes_nothing (P : Prog) (cfg : Cfg) (env : Env) (h : cfg.dry
       · rename_i e1 e heq; rw [heq] at ha; simpa using ha
       · rename_i e1 gv heq
         rw [heq] at ha
-        have h2 := hr d.target gv ran k
+        have h2 := hr sub d.target gv ran k
         split
         · rename_i e2 e heq2; rw [heq2] at h2; simp_all
         · rename_i e2 ran1 heq2
@@ -195,8 +199,8 @@ theorem dry_run_executes_nothing (P : Prog) (cfg : Cfg) (env : Env) (h : cfg.dry
           simp_all
   | succ n ihn =>
     obtain ⟨ihR, ihD⟩ := ihn
-    have hr : ∀ ri given ran k, execs (runRecipe P cfg env (n+1) ri given ran k).1 = [] := by
-      intro ri given ran k
+    have hr : ∀ sub ri given ran k, execs (runRecipe P cfg env (n+1) sub ri given ran k).1 = [] := by
+      intro sub ri given ran k
       rw [runRecipe]
       split
       · simp
@@ -218,14 +222,14 @@ theorem dry_run_executes_nothing (P : Prog) (cfg : Cfg) (env : Env) (h : cfg.dry
                 have : execs e2 = [] := by
                   split at heq2
                   · cases heq2 <;> rfl
-                  · have := ihD r.priors ps ran (k + countPrompts (if (r.confirm && !cfg.yes) = true then [Ev.prompt ri] else []))
+                  · have := ihD sub r.priors ps ran (k + countPrompts (if (r.confirm && !cfg.yes) = true then [Ev.prompt ri] else []))
                     rw [heq2] at this; exact this
                 simp_all
               · rename_i e2 ran1 heq2
                 have h2 : execs e2 = [] := by
                   split at heq2
                   · cases heq2 <;> rfl
-                  · have := ihD r.priors ps ran (k + countPrompts (if (r.confirm && !cfg.yes) = true then [Ev.prompt ri] else []))
+                  · have := ihD sub r.priors ps ran (k + countPrompts (if (r.confirm && !cfg.yes) = true then [Ev.prompt ri] else []))
                     rw [heq2] at this; exact this
                 have h3 := runBody_dry cfg env ri r given ps h
                 split
@@ -237,18 +241,18 @@ theorem dry_run_executes_nothing (P : Prog) (cfg : Cfg) (env : Env) (h : cfg.dry
                     have : execs e4 = [] := by
                       split at heq4
                       · cases heq4 <;> rfl
-                      · have := ihD r.subs ps [] (k + countPrompts (if (r.confirm && !cfg.yes) = true then [Ev.prompt ri] else []) + countPrompts e2)
+                      · have := ihD true r.subs ps [] (k + countPrompts (if (r.confirm && !cfg.yes) = true then [Ev.prompt ri] else []) + countPrompts e2)
                         rw [heq4] at this; exact this
                     simp_all
                   · rename_i e4 x heq4
                     have : execs e4 = [] := by
                       split at heq4
                       · cases heq4 <;> rfl
-                      · have := ihD r.subs ps [] (k + countPrompts (if (r.confirm && !cfg.yes) = true then [Ev.prompt ri] else []) + countPrompts e2)
+                      · have := ihD true r.subs ps [] (k + countPrompts (if (r.confirm && !cfg.yes) = true then [Ev.prompt ri] else []) + countPrompts e2)
                         rw [heq4] at this; exact this
                     simp_all
     refine ⟨hr, ?_⟩
-    intro ds
+    intro sub ds
     induction ds with
     | nil => intro ps ran k; simp [runDeps]
     | cons d ds ih =>
@@ -259,7 +263,7 @@ theorem dry_run_executes_nothing (P : Prog) (cfg : Cfg) (env : Env) (h : cfg.dry
       · rename_i e1 e heq; rw [heq] at ha; simpa using ha
       · rename_i e1 gv heq
         rw [heq] at ha
-        have h2 := hr d.target gv ran k
+        have h2 := hr sub d.target gv ran k
         split
         · rename_i e2 e heq2; rw [heq2] at h2; simp_all
         · rename_i e2 ran1 heq2
